@@ -10,66 +10,21 @@ Base/Res.vos Base/Res.vok Base/Res.required_vos: Base/Res.v
 Gen/Consts.vo Gen/Consts.glob Gen/Consts.v.beautified Gen/Consts.required_vo: Gen/Consts.v 
 Gen/Consts.vio: Gen/Consts.v 
 Gen/Consts.vos Gen/Consts.vok Gen/Consts.required_vos: Gen/Consts.v 
-Gen/RdataTables.vo Gen/RdataTables.glob Gen/RdataTables.v.beautified Gen/RdataTables.required_vo: Gen/RdataTables.v 
-Gen/RdataTables.vio: Gen/RdataTables.v 
-Gen/RdataTables.vos Gen/RdataTables.vok Gen/RdataTables.required_vos: Gen/RdataTables.v 
 Model/NameWire.vo Model/NameWire.glob Model/NameWire.v.beautified Model/NameWire.required_vo: Model/NameWire.v Base/Res.vo Base/Octets.vo Gen/Consts.vo
 Model/NameWire.vio: Model/NameWire.v Base/Res.vio Base/Octets.vio Gen/Consts.vio
 Model/NameWire.vos Model/NameWire.vok Model/NameWire.required_vos: Model/NameWire.v Base/Res.vos Base/Octets.vos Gen/Consts.vos
-Model/RdataM.vo Model/RdataM.glob Model/RdataM.v.beautified Model/RdataM.required_vo: Model/RdataM.v Base/Res.vo Base/Octets.vo Gen/Consts.vo Gen/RdataTables.vo Model/NameWire.vo
-Model/RdataM.vio: Model/RdataM.v Base/Res.vio Base/Octets.vio Gen/Consts.vio Gen/RdataTables.vio Model/NameWire.vio
-Model/RdataM.vos Model/RdataM.vok Model/RdataM.required_vos: Model/RdataM.v Base/Res.vos Base/Octets.vos Gen/Consts.vos Gen/RdataTables.vos Model/NameWire.vos
-Model/RdataSetM.vo Model/RdataSetM.glob Model/RdataSetM.v.beautified Model/RdataSetM.required_vo: Model/RdataSetM.v Model/RdataM.vo
-Model/RdataSetM.vio: Model/RdataSetM.v Model/RdataM.vio
-Model/RdataSetM.vos Model/RdataSetM.vok Model/RdataSetM.required_vos: Model/RdataSetM.v Model/RdataM.vos
 Proofs/NameWireP.vo Proofs/NameWireP.glob Proofs/NameWireP.v.beautified Proofs/NameWireP.required_vo: Proofs/NameWireP.v Base/ListX.vo Model/NameWire.vo Spec/NameWireS.vo Spec/NameRepr.vo
 Proofs/NameWireP.vio: Proofs/NameWireP.v Base/ListX.vio Model/NameWire.vio Spec/NameWireS.vio Spec/NameRepr.vio
 Proofs/NameWireP.vos Proofs/NameWireP.vok Proofs/NameWireP.required_vos: Proofs/NameWireP.v Base/ListX.vos Model/NameWire.vos Spec/NameWireS.vos Spec/NameRepr.vos
 Proofs/NameWireSP.vo Proofs/NameWireSP.glob Proofs/NameWireSP.v.beautified Proofs/NameWireSP.required_vo: Proofs/NameWireSP.v Base/ListX.vo Spec/NameWireS.vo
 Proofs/NameWireSP.vio: Proofs/NameWireSP.v Base/ListX.vio Spec/NameWireS.vio
 Proofs/NameWireSP.vos Proofs/NameWireSP.vok Proofs/NameWireSP.required_vos: Proofs/NameWireSP.v Base/ListX.vos Spec/NameWireS.vos
-Proofs/RdNameEqP.vo Proofs/RdNameEqP.glob Proofs/RdNameEqP.v.beautified Proofs/RdNameEqP.required_vo: Proofs/RdNameEqP.v Base/ListX.vo Model/NameWire.vo Spec/NameWireS.vo Spec/NameRepr.vo Proofs/NameWireP.vo Model/RdataM.vo Spec/RdataFormatS.vo Spec/RdataEqS.vo Proofs/RdNameP.vo
-Proofs/RdNameEqP.vio: Proofs/RdNameEqP.v Base/ListX.vio Model/NameWire.vio Spec/NameWireS.vio Spec/NameRepr.vio Proofs/NameWireP.vio Model/RdataM.vio Spec/RdataFormatS.vio Spec/RdataEqS.vio Proofs/RdNameP.vio
-Proofs/RdNameEqP.vos Proofs/RdNameEqP.vok Proofs/RdNameEqP.required_vos: Proofs/RdNameEqP.v Base/ListX.vos Model/NameWire.vos Spec/NameWireS.vos Spec/NameRepr.vos Proofs/NameWireP.vos Model/RdataM.vos Spec/RdataFormatS.vos Spec/RdataEqS.vos Proofs/RdNameP.vos
-Proofs/RdNameP.vo Proofs/RdNameP.glob Proofs/RdNameP.v.beautified Proofs/RdNameP.required_vo: Proofs/RdNameP.v Base/ListX.vo Model/NameWire.vo Spec/NameWireS.vo Spec/NameRepr.vo Proofs/NameWireP.vo Proofs/NameWireSP.vo Model/RdataM.vo Spec/RdataFormatS.vo
-Proofs/RdNameP.vio: Proofs/RdNameP.v Base/ListX.vio Model/NameWire.vio Spec/NameWireS.vio Spec/NameRepr.vio Proofs/NameWireP.vio Proofs/NameWireSP.vio Model/RdataM.vio Spec/RdataFormatS.vio
-Proofs/RdNameP.vos Proofs/RdNameP.vok Proofs/RdNameP.required_vos: Proofs/RdNameP.v Base/ListX.vos Model/NameWire.vos Spec/NameWireS.vos Spec/NameRepr.vos Proofs/NameWireP.vos Proofs/NameWireSP.vos Model/RdataM.vos Spec/RdataFormatS.vos
-Proofs/RdataEqP.vo Proofs/RdataEqP.glob Proofs/RdataEqP.v.beautified Proofs/RdataEqP.required_vo: Proofs/RdataEqP.v Base/ListX.vo Model/NameWire.vo Spec/NameWireS.vo Spec/NameRepr.vo Proofs/NameWireP.vo Proofs/NameWireSP.vo Model/RdataM.vo Spec/RdataFormatS.vo Spec/RdataEqS.vo Proofs/RdNameP.vo Proofs/RdataFormatSP.vo Proofs/RdataVP.vo Proofs/RdataRP.vo Proofs/RdNameEqP.vo Proofs/RdataEqSP.vo Model/RdataSetM.vo Proofs/RdataSetP.vo
-Proofs/RdataEqP.vio: Proofs/RdataEqP.v Base/ListX.vio Model/NameWire.vio Spec/NameWireS.vio Spec/NameRepr.vio Proofs/NameWireP.vio Proofs/NameWireSP.vio Model/RdataM.vio Spec/RdataFormatS.vio Spec/RdataEqS.vio Proofs/RdNameP.vio Proofs/RdataFormatSP.vio Proofs/RdataVP.vio Proofs/RdataRP.vio Proofs/RdNameEqP.vio Proofs/RdataEqSP.vio Model/RdataSetM.vio Proofs/RdataSetP.vio
-Proofs/RdataEqP.vos Proofs/RdataEqP.vok Proofs/RdataEqP.required_vos: Proofs/RdataEqP.v Base/ListX.vos Model/NameWire.vos Spec/NameWireS.vos Spec/NameRepr.vos Proofs/NameWireP.vos Proofs/NameWireSP.vos Model/RdataM.vos Spec/RdataFormatS.vos Spec/RdataEqS.vos Proofs/RdNameP.vos Proofs/RdataFormatSP.vos Proofs/RdataVP.vos Proofs/RdataRP.vos Proofs/RdNameEqP.vos Proofs/RdataEqSP.vos Model/RdataSetM.vos Proofs/RdataSetP.vos
-Proofs/RdataEqSP.vo Proofs/RdataEqSP.glob Proofs/RdataEqSP.v.beautified Proofs/RdataEqSP.required_vo: Proofs/RdataEqSP.v Base/ListX.vo Spec/NameWireS.vo Proofs/NameWireP.vo Proofs/NameWireSP.vo Model/RdataM.vo Spec/RdataFormatS.vo Spec/RdataEqS.vo Proofs/RdNameP.vo Proofs/RdataFormatSP.vo Proofs/RdataVP.vo Proofs/RdNameEqP.vo
-Proofs/RdataEqSP.vio: Proofs/RdataEqSP.v Base/ListX.vio Spec/NameWireS.vio Proofs/NameWireP.vio Proofs/NameWireSP.vio Model/RdataM.vio Spec/RdataFormatS.vio Spec/RdataEqS.vio Proofs/RdNameP.vio Proofs/RdataFormatSP.vio Proofs/RdataVP.vio Proofs/RdNameEqP.vio
-Proofs/RdataEqSP.vos Proofs/RdataEqSP.vok Proofs/RdataEqSP.required_vos: Proofs/RdataEqSP.v Base/ListX.vos Spec/NameWireS.vos Proofs/NameWireP.vos Proofs/NameWireSP.vos Model/RdataM.vos Spec/RdataFormatS.vos Spec/RdataEqS.vos Proofs/RdNameP.vos Proofs/RdataFormatSP.vos Proofs/RdataVP.vos Proofs/RdNameEqP.vos
-Proofs/RdataFormatSP.vo Proofs/RdataFormatSP.glob Proofs/RdataFormatSP.v.beautified Proofs/RdataFormatSP.required_vo: Proofs/RdataFormatSP.v Base/ListX.vo Spec/NameWireS.vo Proofs/NameWireP.vo Proofs/NameWireSP.vo Model/RdataM.vo Spec/RdataFormatS.vo Proofs/RdNameP.vo
-Proofs/RdataFormatSP.vio: Proofs/RdataFormatSP.v Base/ListX.vio Spec/NameWireS.vio Proofs/NameWireP.vio Proofs/NameWireSP.vio Model/RdataM.vio Spec/RdataFormatS.vio Proofs/RdNameP.vio
-Proofs/RdataFormatSP.vos Proofs/RdataFormatSP.vok Proofs/RdataFormatSP.required_vos: Proofs/RdataFormatSP.v Base/ListX.vos Spec/NameWireS.vos Proofs/NameWireP.vos Proofs/NameWireSP.vos Model/RdataM.vos Spec/RdataFormatS.vos Proofs/RdNameP.vos
-Proofs/RdataRP.vo Proofs/RdataRP.glob Proofs/RdataRP.v.beautified Proofs/RdataRP.required_vo: Proofs/RdataRP.v Base/ListX.vo Spec/NameWireS.vo Spec/NameRepr.vo Proofs/NameWireP.vo Proofs/NameWireSP.vo Model/RdataM.vo Spec/RdataFormatS.vo Proofs/RdNameP.vo Proofs/RdataFormatSP.vo Proofs/RdataVP.vo
-Proofs/RdataRP.vio: Proofs/RdataRP.v Base/ListX.vio Spec/NameWireS.vio Spec/NameRepr.vio Proofs/NameWireP.vio Proofs/NameWireSP.vio Model/RdataM.vio Spec/RdataFormatS.vio Proofs/RdNameP.vio Proofs/RdataFormatSP.vio Proofs/RdataVP.vio
-Proofs/RdataRP.vos Proofs/RdataRP.vok Proofs/RdataRP.required_vos: Proofs/RdataRP.v Base/ListX.vos Spec/NameWireS.vos Spec/NameRepr.vos Proofs/NameWireP.vos Proofs/NameWireSP.vos Model/RdataM.vos Spec/RdataFormatS.vos Proofs/RdNameP.vos Proofs/RdataFormatSP.vos Proofs/RdataVP.vos
-Proofs/RdataSetP.vo Proofs/RdataSetP.glob Proofs/RdataSetP.v.beautified Proofs/RdataSetP.required_vo: Proofs/RdataSetP.v Base/ListX.vo Model/RdataM.vo Model/RdataSetM.vo Spec/RdataFormatS.vo Spec/RdataEqS.vo Proofs/RdNameP.vo Proofs/RdataFormatSP.vo Proofs/RdataVP.vo
-Proofs/RdataSetP.vio: Proofs/RdataSetP.v Base/ListX.vio Model/RdataM.vio Model/RdataSetM.vio Spec/RdataFormatS.vio Spec/RdataEqS.vio Proofs/RdNameP.vio Proofs/RdataFormatSP.vio Proofs/RdataVP.vio
-Proofs/RdataSetP.vos Proofs/RdataSetP.vok Proofs/RdataSetP.required_vos: Proofs/RdataSetP.v Base/ListX.vos Model/RdataM.vos Model/RdataSetM.vos Spec/RdataFormatS.vos Spec/RdataEqS.vos Proofs/RdNameP.vos Proofs/RdataFormatSP.vos Proofs/RdataVP.vos
-Proofs/RdataVP.vo Proofs/RdataVP.glob Proofs/RdataVP.v.beautified Proofs/RdataVP.required_vo: Proofs/RdataVP.v Base/ListX.vo Spec/NameWireS.vo Proofs/NameWireP.vo Proofs/NameWireSP.vo Model/RdataM.vo Spec/RdataFormatS.vo Proofs/RdNameP.vo Proofs/RdataFormatSP.vo
-Proofs/RdataVP.vio: Proofs/RdataVP.v Base/ListX.vio Spec/NameWireS.vio Proofs/NameWireP.vio Proofs/NameWireSP.vio Model/RdataM.vio Spec/RdataFormatS.vio Proofs/RdNameP.vio Proofs/RdataFormatSP.vio
-Proofs/RdataVP.vos Proofs/RdataVP.vok Proofs/RdataVP.required_vos: Proofs/RdataVP.v Base/ListX.vos Spec/NameWireS.vos Proofs/NameWireP.vos Proofs/NameWireSP.vos Model/RdataM.vos Spec/RdataFormatS.vos Proofs/RdNameP.vos Proofs/RdataFormatSP.vos
 Props/C14.vo Props/C14.glob Props/C14.v.beautified Props/C14.required_vo: Props/C14.v Base/ListX.vo Model/NameWire.vo Spec/NameWireS.vo Spec/NameRepr.vo Proofs/NameWireP.vo Proofs/NameWireSP.vo
 Props/C14.vio: Props/C14.v Base/ListX.vio Model/NameWire.vio Spec/NameWireS.vio Spec/NameRepr.vio Proofs/NameWireP.vio Proofs/NameWireSP.vio
 Props/C14.vos Props/C14.vok Props/C14.required_vos: Props/C14.v Base/ListX.vos Model/NameWire.vos Spec/NameWireS.vos Spec/NameRepr.vos Proofs/NameWireP.vos Proofs/NameWireSP.vos
-Props/C18.vo Props/C18.glob Props/C18.v.beautified Props/C18.required_vo: Props/C18.v Base/ListX.vo Model/NameWire.vo Model/RdataM.vo Spec/NameWireS.vo Spec/RdataFormatS.vo Proofs/RdNameP.vo Proofs/RdataFormatSP.vo Proofs/RdataVP.vo Proofs/RdataRP.vo
-Props/C18.vio: Props/C18.v Base/ListX.vio Model/NameWire.vio Model/RdataM.vio Spec/NameWireS.vio Spec/RdataFormatS.vio Proofs/RdNameP.vio Proofs/RdataFormatSP.vio Proofs/RdataVP.vio Proofs/RdataRP.vio
-Props/C18.vos Props/C18.vok Props/C18.required_vos: Props/C18.v Base/ListX.vos Model/NameWire.vos Model/RdataM.vos Spec/NameWireS.vos Spec/RdataFormatS.vos Proofs/RdNameP.vos Proofs/RdataFormatSP.vos Proofs/RdataVP.vos Proofs/RdataRP.vos
-Props/C19.vo Props/C19.glob Props/C19.v.beautified Props/C19.required_vo: Props/C19.v Base/ListX.vo Model/NameWire.vo Model/RdataM.vo Model/RdataSetM.vo Spec/NameRepr.vo Spec/RdataFormatS.vo Spec/RdataEqS.vo Proofs/RdNameEqP.vo Proofs/RdataEqSP.vo Proofs/RdataEqP.vo Proofs/RdataSetP.vo
-Props/C19.vio: Props/C19.v Base/ListX.vio Model/NameWire.vio Model/RdataM.vio Model/RdataSetM.vio Spec/NameRepr.vio Spec/RdataFormatS.vio Spec/RdataEqS.vio Proofs/RdNameEqP.vio Proofs/RdataEqSP.vio Proofs/RdataEqP.vio Proofs/RdataSetP.vio
-Props/C19.vos Props/C19.vok Props/C19.required_vos: Props/C19.v Base/ListX.vos Model/NameWire.vos Model/RdataM.vos Model/RdataSetM.vos Spec/NameRepr.vos Spec/RdataFormatS.vos Spec/RdataEqS.vos Proofs/RdNameEqP.vos Proofs/RdataEqSP.vos Proofs/RdataEqP.vos Proofs/RdataSetP.vos
 Spec/NameRepr.vo Spec/NameRepr.glob Spec/NameRepr.v.beautified Spec/NameRepr.required_vo: Spec/NameRepr.v Model/NameWire.vo Spec/NameWireS.vo
 Spec/NameRepr.vio: Spec/NameRepr.v Model/NameWire.vio Spec/NameWireS.vio
 Spec/NameRepr.vos Spec/NameRepr.vok Spec/NameRepr.required_vos: Spec/NameRepr.v Model/NameWire.vos Spec/NameWireS.vos
 Spec/NameWireS.vo Spec/NameWireS.glob Spec/NameWireS.v.beautified Spec/NameWireS.required_vo: Spec/NameWireS.v Base/Res.vo Base/Octets.vo
 Spec/NameWireS.vio: Spec/NameWireS.v Base/Res.vio Base/Octets.vio
 Spec/NameWireS.vos Spec/NameWireS.vok Spec/NameWireS.required_vos: Spec/NameWireS.v Base/Res.vos Base/Octets.vos
-Spec/RdataEqS.vo Spec/RdataEqS.glob Spec/RdataEqS.v.beautified Spec/RdataEqS.required_vo: Spec/RdataEqS.v Base/Res.vo Base/Octets.vo Spec/NameWireS.vo Spec/RdataFormatS.vo
-Spec/RdataEqS.vio: Spec/RdataEqS.v Base/Res.vio Base/Octets.vio Spec/NameWireS.vio Spec/RdataFormatS.vio
-Spec/RdataEqS.vos Spec/RdataEqS.vok Spec/RdataEqS.required_vos: Spec/RdataEqS.v Base/Res.vos Base/Octets.vos Spec/NameWireS.vos Spec/RdataFormatS.vos
-Spec/RdataFormatS.vo Spec/RdataFormatS.glob Spec/RdataFormatS.v.beautified Spec/RdataFormatS.required_vo: Spec/RdataFormatS.v Base/Res.vo Base/Octets.vo Spec/NameWireS.vo
-Spec/RdataFormatS.vio: Spec/RdataFormatS.v Base/Res.vio Base/Octets.vio Spec/NameWireS.vio
-Spec/RdataFormatS.vos Spec/RdataFormatS.vok Spec/RdataFormatS.required_vos: Spec/RdataFormatS.v Base/Res.vos Base/Octets.vos Spec/NameWireS.vos
